@@ -437,8 +437,14 @@ def p_validate_loaded(chk: Check) -> None:
          lambda p, ids: (lambda d, n: (d is None or (n is not None and n < d and p.effects[d][1] == ids)) and
                          Implies(Not(skip), (d is not None) or (p.kind == "raise")))(ev_index(p, "dup-check"), ev_index(p, "normalize"))),
         ("dataset-without-identifiers-has-at-most-one-row",
-         "not skipped, no identifier components, more than one row => DataLoadError 0-3-1-4",
-         lambda p, ids: True if ids else Implies(And(Not(skip), Gt(rowcount, 1)), p.kind == "raise" and code_of(p) == "0-3-1-4")),
+         "not skipped, no identifier components, more than one row => the table is refused with a DataLoadError (0-3-1-4 unless "
+         "an earlier check has already refused it), and whenever the row count is read and exceeds 1 the error is 0-3-1-4",
+         lambda p, ids: True if ids else And(
+             Implies(And(Not(skip), Gt(rowcount, 1)), p.kind == "raise"),
+             Implies(And(Not(skip), Gt(rowcount, 1), p.kind == "raise" and
+                         any(ev[0] == "sql" and "COUNT(*)" in str(ev[1]) for ev in p.effects) and
+                         not any(ev[0] in ("dup-check",) or str(ev[0]).startswith("check:") for ev in p.effects)),
+                     code_of(p) in ("0-3-1-4",)))),
         ("normal-return-means-every-check-ran",
          "returns normally and not skipped => the duplicate check and the temporal-format check both ran (and, without identifiers, "
          "the row count was read)",
